@@ -95,7 +95,7 @@ def harness_tier(ctx):
         (["a", "b"], ["do i = 2, n - 1", "  a(i) = a(i) + 0.5*b(i + 1) - b(i - 1)", "end do"], None),
         (["a", "b", "c"], ["do i = 1, n, 2", "  a(i) = a(i) + b(i)*c0(i)", "  c(i) = 2.0*a(i)", "end do"], None),
         (["a", "b"], ["do i = n, 2, -1", "  b(i - 1) = b(i - 1) + a(i)", "  a(i) = 0.0", "end do"], None),
-        (["a", "b"], ["if (n > 3) then", "  do i = n - 1, 1, -3", "    a(i) = 3.0*a(i) + c0(i)*b(i + 1)", "  end do",
+        (["a", "b"], ["if (n > 3) then", "  do i = n, 2, -3", "    a(i) = 3.0*a(i) + c0(i)*b(i - 1)", "  end do",
                       "else", "  b(1) = b(1) + a(1)", "end if"], None),
         # the known parenthesisation defect, seen through the compiler: lower bound 2 + 1, step 3, n = 20
         (["a", "b"], ["do i = 2 + 1, n, 3", "  a(i) = a(i) + 2.0*b(i)", "end do"],
@@ -247,8 +247,9 @@ def run(ctx):
             ctx.hist("failure", "VIOLATION")
             if reported < 3:
                 reported += 1
-                key = cand[0] if cand else "unclassified/inner-product-identity"
-                ctx.finding(key, "adjoint is not the transpose of the tangent-linear kernel", replay)
+                why = ("model-disagrees/" if idx in bad_idx else "unlisted/") + \
+                      ("+".join(x.split("/")[1] for x in cand) if cand else "no-known-situation")
+                ctx.violation(dict(replay, key=why, what="adjoint is not the transpose of the tangent-linear kernel"))
     if not reported and (bad or not ok or tr_err):
         i = sorted(bad_idx)[0] if bad_idx else None
         ctx.violation({"property": "C19",
